@@ -145,7 +145,8 @@ def build_world(tape, tier):
                             {"strand": combiners.first_of}]):
         W.add("combine", dict(cd), "initial", f"combine{i}")
     W.add("cnr", objs["cnr_clean"], "initial", "cnr_clean")
-    for name, kind in (("ref_nomask", "ref"), ("ref_alt", "ref"), ("tcov_b", "tcov"), ("acov_b", "acov"),
+    for name, kind in (("ref_nomask", "ref"), ("ref_alt", "ref"), ("ref_clean", "ref"), ("tcov_b", "tcov"),
+                       ("acov_b", "acov"),
                        ("cnr_mirror", "cnr"), ("cnr_chr1", "cnr"), ("varr_empty", "varr"),
                        ("varr_nozyg", "varr"),
                        ("baits_chr1", "baits")):
